@@ -31,6 +31,9 @@ pub fn gen(g: &mut Gen) {
     gen_large(g, "c05.fp", "@ trace fp");
     gen_degenerate(g, "c05.fp", "@ trace", " fp", Kind::Fp);
     gen_degenerate(g, "c05.rat", "@ trace", " rat", Kind::Rat);
+    gen_matrix(g, "c05.fp", "@ trace", " fp", Kind::Fp);
+    gen_matrix(g, "c05.rat", "@ trace", " rat", Kind::Rat);
+    gen_int(g, "c05", "trace", &["vc", "cv", "xx", "vn", "cc"]);
     // `nv` only exists for pow (number ^ trace); gen_f64 skips it for add/mul, sub/div are `cv`
     gen_f64(g, "c05", "trace", &["vc", "cv", "xx", "vn", "nv", "cc"], &|op, pairing, x, y| {
         if pairing == "nv" && op != "pow" { (0.0, None, None) } else { f64_expect_trace(op, pairing, x, y) }
@@ -150,6 +153,98 @@ fn f64_line_trace(toks: &[&str]) -> String {
         Err(k) => panic_str(k),
     }
 }
+
+// ---------------------------------------------------------------------------------------------
+// integer element types at their boundary values (see c04.rs): Trace<i32> / Trace<i64>
+// ---------------------------------------------------------------------------------------------
+
+macro_rules! int_trace_checks {
+    ($T:ty, $modname:ident) => {
+        mod $modname {
+            use super::*;
+            type Out = Result<($T, Option<$T>, Option<$T>), PanicKind>;
+            /// value then derivative, as the rules are documented
+            fn rule(op: &str, u: $T, du: $T, v: $T, dv: $T) -> ($T, $T) {
+                match op {
+                    "add" => (u + v, du + dv),
+                    "sub" => (u - v, du - dv),
+                    "mul" => (u * v, (du * v) + (u * dv)),
+                    "div" => (u / v, ((du * v) - (u * dv)) / (v * v)),
+                    // the plain computation; Trace computes `Trace::zero() - self`, which is the
+                    // same number and the same overflow for MIN
+                    _ => (-u, 0 - du),
+                }
+            }
+            fn rule_number(op: &str, u: $T, du: $T, c: $T) -> ($T, $T) {
+                match op {
+                    "add" => (u + c, du),
+                    "sub" => (u - c, du),
+                    "mul" => (u * c, du * c),
+                    _ => (u / c, (du * c) / (c * c)),
+                }
+            }
+            fn expect(op: &str, pairing: &str, x: $T, y: $T) -> Out {
+                catch(|| match pairing {
+                    "v" => { let (v, d) = rule(op, x, 1, 0, 0); (v, Some(d), None) }
+                    "c" => { let (v, _) = rule(op, x, 0, 0, 0); (v, None, None) }
+                    "xx" => { let (v, d) = rule(op, x, 1, x, 1); (v, Some(d), None) }
+                    "vc" => { let (v, d) = rule(op, x, 1, y, 0); (v, Some(d), None) }
+                    "cv" => { let (v, d) = rule(op, x, 0, y, 1); (v, None, Some(d)) }
+                    "vn" => { let (v, d) = rule_number(op, x, 1, y); (v, Some(d), None) }
+                    _ => { let (v, _) = rule(op, x, 0, y, 0); (v, None, None) }
+                })
+            }
+            fn run(op: &str, pairing: &str, x: $T, y: $T, via: &str) -> Out {
+                catch(|| {
+                    let mk = |is_var: bool, v: $T| if is_var { Trace::variable(v) } else { Trace::constant(v) };
+                    if op == "neg" {
+                        let a = mk(pairing == "v", x);
+                        let r = op2!(via, &a, Neg::neg);
+                        return (r.number, if pairing == "v" { Some(r.derivative) } else { None }, None);
+                    }
+                    let (xv, yv) = match pairing {
+                        "vc" | "vn" | "xx" => (true, false),
+                        "cv" => (false, true),
+                        _ => (false, false),
+                    };
+                    let a = mk(xv, x);
+                    let b = mk(yv, y);
+                    let r = match (pairing, op) {
+                        ("xx", "add") => op4!(via, &a, &a, Add::add),
+                        ("xx", "sub") => op4!(via, &a, &a, Sub::sub),
+                        ("xx", "mul") => op4!(via, &a, &a, Mul::mul),
+                        ("xx", _) => op4!(via, &a, &a, Div::div),
+                        ("vn", "add") => op4!(via, &a, &y, Add::add),
+                        ("vn", "sub") => op4!(via, &a, &y, Sub::sub),
+                        ("vn", "mul") => op4!(via, &a, &y, Mul::mul),
+                        ("vn", _) => op4!(via, &a, &y, Div::div),
+                        (_, "add") => op4!(via, &a, &b, Add::add),
+                        (_, "sub") => op4!(via, &a, &b, Sub::sub),
+                        (_, "mul") => op4!(via, &a, &b, Mul::mul),
+                        (_, _) => op4!(via, &a, &b, Div::div),
+                    };
+                    (r.number, if xv { Some(r.derivative) } else { None }, if yv { Some(r.derivative) } else { None })
+                })
+            }
+            pub fn line(toks: &[&str]) -> String {
+                let (op, pairing) = (toks[4], toks[5]);
+                let (x, y): ($T, $T) = (toks[6].parse().unwrap(), toks[7].parse().unwrap());
+                let via = opt_arg("via", toks).unwrap_or("ref_ref");
+                let (got, want) = (run(op, pairing, x, y, via), expect(op, pairing, x, y));
+                if got == want {
+                    return "int=ok".into();
+                }
+                let sh = |r: &Out| match r {
+                    Ok(t) => format!("{:?}", t),
+                    Err(k) => panic_str(*k),
+                };
+                format!("int=DIFF got={} want={}", sh(&got), sh(&want))
+            }
+        }
+    };
+}
+int_trace_checks!(i32, tint32);
+int_trace_checks!(i64, tint64);
 
 /// One run of the program with traces: `vals[k]` is the trace of instruction `k`.
 /// `seed`: position of the input that is the `Trace::variable`.
@@ -445,6 +540,10 @@ impl Runner {
     pub fn step(&mut self, toks: &[&str]) -> String {
         if toks.is_empty() {
             return "bad-op".into();
+        }
+        if toks[0] == "@" && toks.get(1) == Some(&"int") {
+            self.case = Case::None;
+            return if toks[3] == "i32" { tint32::line(toks) } else { tint64::line(toks) };
         }
         if toks[0] == "@" && toks.get(1) == Some(&"f64") {
             self.case = Case::None;
